@@ -29,7 +29,10 @@ def main():
                 clause = g.group(1)
         by = qc.get('by', m['property'])
         txt = '%s %s' % (by if by == m['property'] else '%s (%s)' % (m['property'], by), clause)
-        if 'history' in m:
+        if m.get('out_of_domain'):
+            txt = '**not decided** -- ' + m['history'].replace('not decided: ', '').replace('|', '/')
+            missed += 1
+        elif 'history' in m:
             txt += ' -- **missed at first**: ' + m['history'].replace('missed at first ', '').replace('|', '/')
             missed += 1
         rows += 1
